@@ -13,11 +13,21 @@ pub async fn save_dict(path: impl AsRef<Path>, dict: impl Dictionary) -> Result<
         fs::create_dir_all(parent).await?;
     }
 
-    let file = File::create(path.as_ref()).await?;
+    // Write the new contents next to the destination and move them into place: creating the
+    // destination directly truncates it first, so a crash before the rewrite finished would lose
+    // every word saved earlier.
+    let mut temp_name = path.as_ref().as_os_str().to_owned();
+    temp_name.push(".tmp");
+    let temp_path = PathBuf::from(temp_name);
+
+    let file = File::create(&temp_path).await?;
     let mut write = BufWriter::new(file);
 
     write_word_list(dict, &mut write).await?;
     write.flush().await?;
+    drop(write);
+
+    fs::rename(&temp_path, path.as_ref()).await?;
 
     Ok(())
 }
